@@ -193,6 +193,12 @@ pub fn normalise_stderr(s: &str) -> String {
                 }
                 None => line.to_string(),
             }
+        } else if line.starts_with("thread '") {
+            // "thread 'main' (12345) panicked at ..": the OS thread id is not part of the outcome
+            match (line.find("' ("), line.find(") panicked")) {
+                (Some(a), Some(b)) if a < b && line[a + 3..b].bytes().all(|c| c.is_ascii_digit()) => format!("{}'{}", &line[..a], &line[b + 1..]),
+                _ => line.to_string(),
+            }
         } else {
             line.to_string()
         };
@@ -258,7 +264,12 @@ pub fn run_cli(sc: &CliScenario) -> Result<CliResult, String> {
         other => return Err(format!("unknown fault {}", other)),
     }
     let argv = sc.argv(&out.to_string_lossy(), start_config.as_deref());
-    let child = Command::new(&bin)
+    // address space capped at 4 GiB: a run that tries to allocate in proportion to an
+    // astronomically large --steps fails in its own process instead of exhausting the machine
+    let child = Command::new("/bin/sh")
+        .arg("-c")
+        .arg("ulimit -v 4194304; exec \"$0\" \"$@\"")
+        .arg(&bin)
         .args(&argv)
         .env_clear()
         .env("RAYON_NUM_THREADS", sc.threads.to_string())
@@ -269,7 +280,25 @@ pub fn run_cli(sc: &CliScenario) -> Result<CliResult, String> {
         .stderr(Stdio::piped())
         .spawn()
         .map_err(|e| format!("spawn {}: {}", bin, e))?;
-    let output = child.wait_with_output().map_err(|e| format!("wait: {}", e))?;
+    // bounded wait: the tool's runs here take well under a second; one that is still running after
+    // five minutes is killed (the caller sees "terminated by a signal")
+    let pid = child.id();
+    let done = std::sync::Arc::new(std::sync::atomic::AtomicBool::new(false));
+    let done2 = done.clone();
+    let killer = std::thread::spawn(move || {
+        let t0 = std::time::Instant::now();
+        while !done2.load(std::sync::atomic::Ordering::SeqCst) {
+            if t0.elapsed() > std::time::Duration::from_secs(300) {
+                let _ = Command::new("kill").arg("-9").arg(pid.to_string()).status();
+                return;
+            }
+            std::thread::sleep(std::time::Duration::from_millis(50));
+        }
+    });
+    let output = child.wait_with_output().map_err(|e| format!("wait: {}", e));
+    done.store(true, std::sync::atomic::Ordering::SeqCst);
+    let _ = killer.join();
+    let output = output?;
     let jp = out.with_extension("json");
     let sp = out.with_extension("svg");
     let is_reg = |p: &Path| std::fs::symlink_metadata(p).map(|m| m.file_type().is_file()).unwrap_or(false);
